@@ -365,10 +365,12 @@ def run_shard(shard, tier, acc):
         lists = [[a, b] for a in names for b in names]
         inputs = [(lambda l=l: Library([Entry("a", "k", [Field("author", list(l)), Field("editor", [l[1]]), Field("t", "x")])])) for l in lists]
         for ip in (True, False):
-            leak.run(lambda: SplitNameParts(allow_inplace_modification=ip), inputs, acc, f"SplitNameParts({ip})", case_of=lambda i: lists[i])
+            from .. import hostile
+
+            leak.run(lambda: SplitNameParts(allow_inplace_modification=ip), inputs, acc, f"SplitNameParts({ip})", case_of=lambda i: lists[i], poison=hostile.libraries(), judge=None if ip else leak.copy_judge)
         strs = [" and ".join(l) for l in lists]
         inputs = [(lambda v=v: Library([Entry("a", "k", [Field("author", v), Field("t", v)])])) for v in strs]
-        leak.run(lambda: SeparateCoAuthors(allow_inplace_modification=False), inputs, acc, "SeparateCoAuthors", case_of=lambda i: strs[i])
+        leak.run(lambda: SeparateCoAuthors(allow_inplace_modification=False), inputs, acc, "SeparateCoAuthors", case_of=lambda i: strs[i], poison=hostile.libraries(), judge=leak.copy_judge)
     else:
         check_middleware(shard[1], acc)
 
